@@ -148,7 +148,13 @@ func runRegistry(r *core.Run, cid string, K int) {
 			nc := 1 + rng.Intn(3)
 			for k := 0; k < nc; k++ {
 				chains = append(chains, universe[rng.Intn(len(universe))])
-				addrs = append(addrs, w.pool[rng.Intn(len(w.pool))].Bech32())
+				// the counterparty address is a free string of the OTHER chain's format: lower-case bech32, or an EVM address in
+				// its mixed-case checksum spelling - it is recorded and compared as registered
+				if acct := w.pool[rng.Intn(len(w.pool))]; rng.Intn(3) == 0 {
+					addrs = append(addrs, acct.Eth.Hex())
+				} else {
+					addrs = append(addrs, acct.Bech32())
+				}
 			}
 			p := clienttypes.NewRegisterRelayerProposal("t", "d", who.Bech32(), chains, addrs)
 			if p.ValidateBasic() != nil {
